@@ -239,9 +239,12 @@ func (b *BaseStore) InitBaseStore(ipfs coreiface.CoreAPI, identity *identityprov
 	b.index = options.Index(b.Identity().PublicKey)
 	b.muIndex.Unlock()
 
+	// the replicator's events carry no address: give each store's replicator
+	// its own bus, so that another store of the same instance never takes them
+	// for its own
 	b.replicator, err = replicator.NewReplicator(b, options.ReplicationConcurrency, &replicator.Options{
 		Logger:   b.logger,
-		EventBus: b.eventBus,
+		EventBus: eventbus.NewBus(),
 		Tracer:   b.tracer,
 	})
 	if err != nil {
@@ -1052,6 +1055,13 @@ func (b *BaseStore) storeListener(topic iface.PubSubTopic) error {
 			}
 
 			evt := e.(stores.EventWrite)
+
+			// the bus is shared by every store of the instance: only
+			// announce our own writes
+			if evt.Address == nil || evt.Address.String() != b.Address().String() {
+				continue
+			}
+
 			go func() {
 				// @TODO(gfanton): HandleEventWrite trigger a
 				// publish that is a blocking call if no peers
